@@ -1,4 +1,5 @@
 import PepperProofs.Closure
+import PepperProofs.ClosureStaged
 /-!
 # C07 — `propagate_constraints` computes exactly the parity-labelled connected classes
 
@@ -9,6 +10,10 @@ neighbour is a key, both relations symmetric) the function returns without an as
 exactly the keys of `eq` as keys, and maps every item to (its even-parity class, its odd-parity class).
 The proofs are in `PepperProofs/ClosureClass` (inner `while` loop, fuel sufficiency) and
 `PepperProofs/Closure` (outer `for` loop).
+
+Staged use (`design/constraint_load.py : Constraints.propagate` stores the result back as the link
+collections, and the store is then extended and propagated again): `propagate_idempotent` and
+`propagate_staged`, proofs in `PepperProofs/ClosureStaged`.
 -/
 namespace Pepper.C07
 open Pepper.Closure
@@ -54,6 +59,40 @@ theorem order_independent {eq wc eq' wc' : Adj} (h : Pre eq wc) (h' : Pre eq' wc
   · rw [hE, hE']; exact ⟨Reach.congr he hw, Reach.congr he' hw'⟩
   · rw [hW, hW']; exact ⟨Reach.congr he hw, Reach.congr he' hw'⟩
 
+/-- `Constraints.propagate()` twice in a row is sound.  Read the result `r` of a successful call back
+    as link lists (`r.eqAdj`: every item ↦ all its equals, itself included; `r.wcAdj`: every item ↦ all
+    its complements).  These satisfy the documented precondition again, the second call succeeds,
+    has no keys but the items, and maps every item to the same two classes (as sets) as the first. -/
+theorem propagate_idempotent {eq wc : Adj} {r : Res} (h : Pre eq wc) (e : propagate eq wc = .ok r) :
+    Pre r.eqAdj r.wcAdj ∧
+    ∃ r', propagate r.eqAdj r.wcAdj = .ok r' ∧
+      (∀ x, r'.has x = true → x ∈ keys eq) ∧
+      ∀ x ∈ keys eq, ∃ E' W', r'.get x = some (E', W') ∧
+        (∀ y, y ∈ E' ↔ Reach eq wc x false y) ∧ (∀ y, y ∈ W' ↔ Reach eq wc x true y) := by
+  exact Pepper.Closure.propagate_idempotent h e
+
+/-- Staged use of the store is sound.  After a successful propagation the result `r` is kept as the
+    basis, fresh items are added (`eq2`/`wc2`: keys disjoint from the old ones, documented
+    precondition among themselves, hence linked only among themselves) and the whole is propagated
+    again.  Then the extended store satisfies the documented precondition, the second call succeeds,
+    its keys are exactly the old and the fresh items, and every item is mapped to exactly its
+    even-parity / odd-parity class in the combined *original* basis `(eq ++ eq2, wc ++ wc2)` — which
+    for an old item are its classes in `(eq, wc)` and for a fresh item its classes in `(eq2, wc2)`.
+    Nothing is assumed about `r` except that it is what the first call returned. -/
+theorem propagate_staged {eq wc eq2 wc2 : Adj} {r : Res} (h : Pre eq wc)
+    (e : propagate eq wc = .ok r) (h2 : Pre eq2 wc2) (hd : ∀ x, x ∈ keys eq → x ∉ keys eq2) :
+    Pre (r.eqAdj ++ eq2) (r.wcAdj ++ wc2) ∧
+    ∃ r', propagate (r.eqAdj ++ eq2) (r.wcAdj ++ wc2) = .ok r' ∧
+      (∀ x, r'.has x = true → x ∈ keys eq ++ keys eq2) ∧
+      (∀ x ∈ keys eq ++ keys eq2, ∃ E W, r'.get x = some (E, W) ∧
+        (∀ y, y ∈ E ↔ Reach (eq ++ eq2) (wc ++ wc2) x false y) ∧
+        (∀ y, y ∈ W ↔ Reach (eq ++ eq2) (wc ++ wc2) x true y)) ∧
+      (∀ x ∈ keys eq, ∃ E W, r'.get x = some (E, W) ∧
+        (∀ y, y ∈ E ↔ Reach eq wc x false y) ∧ (∀ y, y ∈ W ↔ Reach eq wc x true y)) ∧
+      (∀ x ∈ keys eq2, ∃ E W, r'.get x = some (E, W) ∧
+        (∀ y, y ∈ E ↔ Reach eq2 wc2 x false y) ∧ (∀ y, y ∈ W ↔ Reach eq2 wc2 x true y)) := by
+  exact Pepper.Closure.propagate_staged h e h2 hd
+
 /-- The executable precondition check used by the driver and the harness generators is sound. -/
 theorem pre_of_preB {eq wc : Adj} (h : preB eq wc = true) : Pre eq wc := Pre.of_preB h
 
@@ -96,5 +135,38 @@ example : Reach exEq exWc 4 true 7 ∧ Reach exEq exWc 0 true 0 := by
 /-- without the symmetry precondition the Python's own assert fires (the precondition is needed):
     `1 ∈ eq[0]` but `0 ∉ eq[1]`; resolving `1` first and then `0` finds `1` already resolved -/
 example : propagate [(1, []), (0, [1])] [(1, []), (0, [])] = .error .assertion := by rfl
+
+/-! ### non-vacuity of the staged theorems
+
+The first stage is the example above; the second stage adds two fresh items linked to each other
+(`8 ~ 9`) and a fresh isolated item (`10`). -/
+
+/-- the result of the first stage (see the evaluation above) -/
+abbrev exRes : Res :=
+  [(2, [0, 2, 1], [2, 1, 0]), (1, [0, 2, 1], [2, 1, 0]), (0, [0, 2, 1], [2, 1, 0]),
+   (3, [3], []),
+   (4, [4, 5], [7, 6]), (5, [4, 5], [7, 6]), (7, [7, 6], [4, 5]), (6, [7, 6], [4, 5])]
+/-- second stage: `eq` basis of the fresh items -/
+abbrev exEq2 : Adj := [(8, []), (9, []), (10, [])]
+/-- second stage: `wc` basis of the fresh items -/
+abbrev exWc2 : Adj := [(8, [9]), (9, [8]), (10, [])]
+
+/-- the hypotheses of `propagate_staged` (and of `propagate_idempotent`) are satisfiable -/
+example : Pre exEq exWc ∧ propagate exEq exWc = .ok exRes ∧ Pre exEq2 exWc2 ∧
+    ∀ x, x ∈ keys exEq → x ∉ keys exEq2 :=
+  ⟨pre_of_preB (by decide), by rfl, pre_of_preB (by decide), by decide⟩
+
+/-- propagating the stored result again returns the same classes (as sets; the order differs) -/
+example : propagate exRes.eqAdj exRes.wcAdj = .ok
+    [(1, [0, 1, 2], [1, 2, 0]), (2, [0, 1, 2], [1, 2, 0]), (0, [0, 1, 2], [1, 2, 0]),
+     (3, [3], []),
+     (5, [5, 4], [6, 7]), (4, [5, 4], [6, 7]), (6, [6, 7], [5, 4]), (7, [6, 7], [5, 4])] := by rfl
+
+/-- after adding the fresh items the old classes are unchanged and the fresh ones are exact -/
+example : propagate (exRes.eqAdj ++ exEq2) (exRes.wcAdj ++ exWc2) = .ok
+    [(1, [0, 1, 2], [1, 2, 0]), (2, [0, 1, 2], [1, 2, 0]), (0, [0, 1, 2], [1, 2, 0]),
+     (3, [3], []),
+     (5, [5, 4], [6, 7]), (4, [5, 4], [6, 7]), (6, [6, 7], [5, 4]), (7, [6, 7], [5, 4]),
+     (8, [8], [9]), (9, [9], [8]), (10, [10], [])] := by rfl
 
 end Pepper.C07
